@@ -22,6 +22,7 @@ func checkC12(c *Ctx) {
 	ruleLoadDirectoryCallback(c)
 	ruleWalkProtocol(c, c.P, "R12.4")
 	ruleReadIsParse(c)
+	c.importRules(decodeTargetRules, []string{"R10.11"}, "R12.8") // a file is decoded into a fresh zero value: nothing of another (valid or broken) file leaks into it
 	c.MinCount("R12.6", 1)
 	// R12.5 "a file that fails to parse is reported and skipped" needs the parse chain to report every failure
 	if pf := newParserFacts(c); pf.err == nil {
@@ -701,6 +702,36 @@ func ruleReadIsParse(c *Ctx) {
 			bad = "a success return does not depend on ParseData's error being nil"
 			continue
 		}
+		// what is parsed is the whole content of the file at the given path: io.ReadAll of the opened file itself (no limiting
+		// or buffering reader in between that could cut it short), or os.ReadFile
+		{
+			data := calls[0].Args[0].StripConv()
+			isCallTo := func(t *Term, names ...string) bool {
+				if t.Op != "extract" || t.Aux != "0" || len(t.Args) != 1 || t.Args[0].Op != "call" {
+					return false
+				}
+				for _, n := range names {
+					if strings.HasPrefix(t.Args[0].Aux, n+"#") || t.Args[0].Aux == n {
+						return true
+					}
+				}
+				return false
+			}
+			whole := false
+			switch {
+			case isCallTo(data, "os.ReadFile", "io/ioutil.ReadFile"):
+				whole = len(data.Args[0].Args) > 0 && data.Args[0].Args[0].Op == "param"
+			case isCallTo(data, "io.ReadAll", "io/ioutil.ReadAll"):
+				if len(data.Args[0].Args) > 0 {
+					rd := data.Args[0].Args[0].StripConv()
+					whole = isCallTo(rd, "os.OpenFile", "os.Open") && len(rd.Args[0].Args) > 0 && rd.Args[0].Args[0].Op == "param"
+				}
+			}
+			if !whole {
+				bad = "what is handed to ParseData is not the complete content of the file (io.ReadAll of the opened file, or os.ReadFile): " + truncate(data.String(), 160) + " - a reader that limits or re-slices the input lets a cut-off file be accepted with its later mappings missing"
+				continue
+			}
+		}
 		// the returned struct carries ParseData's first result
 		if !p.Ret[0].Any(func(x *Term) bool {
 			return x.Op == "extract" && x.Aux == "0" && len(x.Args) == 1 && x.Args[0].Op == "call" && strings.Contains(x.Args[0].Aux, pd.Name())
@@ -714,3 +745,6 @@ func ruleReadIsParse(c *Ctx) {
 	}
 	c.Check(bad == "", "R12.6", "config.readDeviceConfig/success=parsed", pos, fmt.Sprintf("%d success path(s), each returns ParseData's result under its nil error", n), bad)
 }
+
+// readIsParseRules: R12.6 alone, for import by C10 (what the file states is what is parsed: the whole file).
+func readIsParseRules(c *Ctx) { ruleReadIsParse(c) }
